@@ -1,7 +1,7 @@
 //vp:property C44
 //vp:pkg ./rules
 //vp:roots ./model/labels ./promql ./promql/parser ./template time ./model/timestamp github.com/prometheus/common/model
-//vp:bounds one evaluation step of AlertingRule.Eval for a single label set from an arbitrary prior alert state: prior state none / pending / firing / inactive with ActiveAt, ResolvedAt, KeepFiringSince on a one-minute grid (enumerated concretely: time.Time arithmetic multiplies and divides by 10^9, which the solvers do not finish on symbolic instants), evaluation time after all of them; the 'for' duration and keep_firing_for symbolic (any non-negative Duration up to 2^60 ns); the alert expression returns the label set or nothing (both cases)
+//vp:bounds one evaluation step of AlertingRule.Eval for a single label set from an arbitrary prior alert state: prior state none / pending / firing / inactive with ActiveAt, ResolvedAt, KeepFiringSince on a one-minute grid (enumerated concretely: time.Time arithmetic multiplies and divides by 10^9, which the solvers do not finish on symbolic instants), evaluation time after all of them; the 'for' duration and keep_firing_for symbolic (any non-negative Duration up to 2^60 ns); the alert expression returns the label set or nothing (both cases); thorough: more prior activation instants and evaluation instants (3,4,5,18,19,34 minutes)
 //vp:assume rule without label/annotation templates; instants enumerated on a minute grid; single label set; durations non-negative
 package rules
 
@@ -98,7 +98,11 @@ func vpH_C44_alert_step() {
 			a = x
 		}
 		m.state = prior
-		m.activeAt = at(vpShape("activeAt", 0, 2))
+		aHi := 2
+		if vpThorough() {
+			aHi = 3
+		}
+		m.activeAt = at(vpShape("activeAt", 0, aHi))
 		a.ActiveAt = m.activeAt
 		a.FiredAt, a.ResolvedAt, a.KeepFiringSince = time.Time{}, time.Time{}, time.Time{}
 		switch prior {
@@ -118,7 +122,11 @@ func vpH_C44_alert_step() {
 		}
 	}
 	present = vpShape("present", 0, 1) == 1
-	now := at(4 + 15*vpShape("later", 0, 1)) // 4 minutes, or 19 minutes (past the resolved retention)
+	nows := []int{4, 19} // 4 minutes, or 19 minutes (past the resolved retention)
+	if vpThorough() {
+		nows = []int{3, 4, 5, 18, 19, 34}
+	}
+	now := at(nows[vpShape("later", 0, len(nows)-1)])
 	if _, err := r.Eval(context.Background(), 0, now, q, nil, 0); err != nil {
 		panic(err)
 	}
